@@ -102,6 +102,8 @@ Failed(b)      == \/ b.prep.out = "err"
                   \/ b.posts # <<>> /\ b.posts[1].out = "err"
                   \/ b.fbs # <<>> /\ b.fbs[1].out = "err"
                   \/ b.fbs = <<>> /\ b.execs # <<>> /\ Last(b.execs).out = "err" /\ b.posts = <<>>
+\* the same for a batch node used as a flow step: an item's error stays in its slot, only prep and post errors end the run
+FailedB(b)     == b.prep.out = "err" \/ (b.posts # <<>> /\ b.posts[1].out = "err")
 \* token of the error that ended a failed block
 FailTok(b)     == IF b.prep.out = "err" THEN b.prep.err
                   ELSE IF b.posts # <<>> /\ b.posts[1].out = "err" THEN b.posts[1].err
@@ -141,7 +143,7 @@ Target(conns, f, n, a)   == LET m == Entries(conns, f, n, a) IN m[Len(m)].to
 RECURSIVE Walk(_, _, _, _)
 RECURSIVE WalkFlow(_, _, _, _, _, _, _)
 Walk(cfg, tbl, n, acts) ==
-  IF NodeOf(cfg, n).kind = "leaf"
+  IF NodeOf(cfg, n).kind # "flow"
   THEN IF acts = <<>>
        THEN [visits |-> <<n>>, rest |-> <<>>, act |-> NIL, cut |-> TRUE, nostart |-> FALSE]
        ELSE [visits |-> <<n>>, rest |-> Tail(acts), act |-> Head(acts), cut |-> FALSE, nostart |-> FALSE]
@@ -192,7 +194,9 @@ PathHolds(cfg, s) ==
 C01_Clauses(cfg, S) ==
   LET Dummy == 0
       BlocksOf(j) == S[j].blocks
-      ForAllBlocks(P(_, _, _)) == \A j \in 1..Len(S) : \A i \in 1..Len(BlocksOf(j)) : P(S[j], i, BlocksOf(j)[i])
+      \* the lifecycle / budget rules are those of ordinary nodes; batch nodes used as flow steps have their own (C06..)
+      ForAllBlocks(P(_, _, _)) == \A j \in 1..Len(S) : \A i \in 1..Len(BlocksOf(j)) :
+                                      NodeOf(cfg, BlocksOf(j)[i].node).kind = "leaf" => P(S[j], i, BlocksOf(j)[i])
   IN [
    \* every callback belongs to a block prep.exec*.fb?.post? of one node: prep exactly once,
    \* then only exec attempts (and the fallback), then post at most once
@@ -236,7 +240,9 @@ C01_OK(cfg, h) == All(C01_Clauses(cfg, Segs(h)))
 C02_Clauses(cfg, S) ==
   LET Dummy == 0
       BlocksOf(j) == S[j].blocks
-      ForAllBlocks(P(_, _, _)) == \A j \in 1..Len(S) : \A i \in 1..Len(BlocksOf(j)) : P(S[j], i, BlocksOf(j)[i])
+      \* the lifecycle / budget rules are those of ordinary nodes; batch nodes used as flow steps have their own (C06..)
+      ForAllBlocks(P(_, _, _)) == \A j \in 1..Len(S) : \A i \in 1..Len(BlocksOf(j)) :
+                                      NodeOf(cfg, BlocksOf(j)[i].node).kind = "leaf" => P(S[j], i, BlocksOf(j)[i])
       N(b) == BudgetOf(cfg, b.node)
       m(b) == Len(b.execs)
       Fbk(b) == NodeOf(cfg, b.node).fb
@@ -295,7 +301,8 @@ C04_Clauses(cfg, S) ==
   LET Dummy == 0
       B(j) == S[j].blocks
       NoCancel(j) == ~Cancelled(S[j])
-      FailedIdx(j) == {i \in 1..Len(B(j)) : Failed(B(j)[i])}
+      IsFailed(b) == IF NodeOf(cfg, b.node).kind = "bleaf" THEN FailedB(b) ELSE Failed(b)
+      FailedIdx(j) == {i \in 1..Len(B(j)) : IsFailed(B(j)[i])}
   IN [
    \* nil error iff every phase on the path succeeded
    errIffFailed |-> \A j \in 1..Len(S) : (NoCancel(j) /\ ~cfg.nilstart) =>
@@ -315,10 +322,11 @@ C04_OK(cfg, h) == All(C04_Clauses(cfg, Segs(h)))
 C05_Clauses(cfg, S) ==
   LET Dummy == 0
       B(j) == S[j].blocks
-      FailedIdx(j) == {i \in 1..Len(B(j)) : Failed(B(j)[i])}
+      IsFailed(b) == IF NodeOf(cfg, b.node).kind = "bleaf" THEN FailedB(b) ELSE Failed(b)
+      FailedIdx(j) == {i \in 1..Len(B(j)) : IsFailed(B(j)[i])}
   IN [
-   \* context already done: no callback at all, error matches the context's error
-   doneBefore |-> \A j \in 1..Len(S) : S[j].call.ctxdone =>
+   \* context already done: no callback at all, error matches the context's error (batch nodes run directly are exempt)
+   doneBefore |-> \A j \in 1..Len(S) : (S[j].call.ctxdone /\ NodeOf(cfg, S[j].call.node).kind # "bleaf") =>
                      S[j].cbs = <<>> /\ HasRet(S[j]) /\ RetOf(S[j]).iserr /\ RetOf(S[j]).ctxerr,
    \* after the cancellation no new exec attempt and no new node
    noNewWork  |-> \A j \in 1..Len(S) : CancelIdx(S[j]) # 0 =>
